@@ -14,6 +14,6 @@ export VERIF_REPO=$wt
 export VERIF_EVIDENCE_DIR=/tmp/ev-seeded; mkdir -p $VERIF_EVIDENCE_DIR
 for p in $props; do
   echo "=== $p"
-  ./tools/check.sh $p quick 2>&1 | grep -E "^--- violation|^VIOLATION|^runs=|HARNESS|error" | cut -c1-300
+  ./tools/check.sh $p quick 2>&1 | grep -E "^--- violation|^VIOLATION|^runs=|HARNESS|harness|error" | cut -c1-300
 done
 git -C $wt checkout -- .
